@@ -4,6 +4,7 @@
    power loss) and coq/sys/Update.v (update_ops = skops/cli/_update.py as it is now,
    legacy_update_ops = the code before the fix of D22/D23). *)
 From Skv Require Import PyStr Json Fs FsFacts Update UpdateFacts.
+From Skv Require CodecDump CodecLoad CodecShareFacts CodecFacts SinkFacts CliCodecFacts.
 
 (* update attempts a mutation iff the archive is older, a destination is given and
    not (output and inplace together); in every other case the operation list contains
@@ -130,3 +131,22 @@ Theorem C16_legacy_nested_refuted :
   /\ snd (update_ops ex_world c) = Wrote (parse_path (s "sub/out.skops")).
 Proof. exact legacy_nested_refuted. Qed.
 Print Assumptions C16_legacy_nested_refuted.
+
+(* "... rewritten at the requested destination as a current-protocol archive that loads to an equal object": composition
+   with the codec round trip (C05).  w_new, opaque in the file-operation model, is instantiated with the dump model and the
+   zip container (an oracle that reads back what it wrote); on the C05 fragment the file at the destination unzips to an
+   archive that the load model maps back to the very value v the old archive held (v = load(input)). *)
+Theorem C16_result_loads_equal_partial :
+  forall (zipc : nat -> nat -> CodecDump.archive -> bytes) (unzip : bytes -> option CodecDump.archive),
+    (forall method level a, unzip (zipc method level a) = Some a) ->
+    forall e w c st out reg cur (F : CodecLoad.cfacts) (D : CodecDump.denv) base v method level,
+    fits e w c st = true -> should_write w c = true -> dest w c = Some out -> c_dstdir_ok c = true ->
+    CodecDump.dn_cur D = cur -> CodecShareFacts.reg_ok reg cur = true -> CodecShareFacts.facts_sane F = true ->
+    CodecFacts.c05_guard F D base v = true ->
+    SinkFacts.save_model zipc D base v method level = Ok (w_new w) ->
+    let fin := apply_ops e st (fst (update_ops w c)) in
+    exists a, fget (dst_of w out) (files fin) = Some (w_new w)
+              /\ unzip (w_new w) = Some a
+              /\ CodecLoad.loads_model (CodecLoad.cenv_of reg cur F a) (CodecDump.a_schema a) = Ok v.
+Proof. exact CliCodecFacts.update_result_loads_equal_partial. Qed.
+Print Assumptions C16_result_loads_equal_partial.
